@@ -644,6 +644,9 @@ func (w *Worker) choose(lo, hi int64) int64 {
 	}
 	if w.concreteVec != nil {
 		v := w.nextConcrete()
+		if v < lo || v > hi {
+			panic(pathEnd{kind: "pruned"})
+		}
 		w.nondet = append(w.nondet, ndEntry{kind: "choose", v: v})
 		return v
 	}
